@@ -336,7 +336,12 @@ func histFixtures() []histFixture {
 	c := defaultFM()
 	c.BaseFee = sdkmath.NewInt(100)
 	c.MinGasPrice = sdk.NewDec(1000) // base below the floor: observation territory for monotonicity, recurrence still checked
-	return []histFixture{{"base1000-mgp900-lim100", 100, a}, {"base7-mgp0-lim100-mult1", 100, b}, {"base100-mgp1000-lim100", 100, c}}
+	// a base fee beyond 2^63: the recurrence is over big integers, nothing may clamp or freeze it
+	e := defaultFM()
+	e.BaseFee, _ = sdkmath.NewIntFromString("20000000000000000000")
+	e.MinGasPrice = sdk.NewDec(0)
+	e.BaseFeeChangeDenominator = 8
+	return []histFixture{{"base1000-mgp900-lim100", 100, a}, {"base7-mgp0-lim100-mult1", 100, b}, {"base100-mgp1000-lim100", 100, c}, {"base2e19-mgp0-lim100", 100, e}}
 }
 
 type gasOp struct{ gw, gu uint64 }
